@@ -327,6 +327,9 @@ func c11ModelCases(r *Rng, p *c11GProg, ctxs []*c11FileCtx, files map[string]str
 	if out != "ok" {
 		return
 	}
+	if len(ctxs) > 0 {
+		c11ConstCases(r, sp, enc, ctxs[0])
+	}
 	for i, f := range sp.files {
 		tys := []*c11GTy{}
 		for _, td := range f.typedefs {
